@@ -211,7 +211,7 @@ def csv_case(draw):
 def check_csv(case, stats: Stats):
     from tally.merchant_utils import get_all_rules, normalize_merchant
     rules = case['rules']
-    excluded = [r for r in rules if csvrules.looks_like_expression(r['pattern']) or r['pattern'].startswith('#')]
+    excluded = [] if case.get('keep_known') else [r for r in rules if csvrules.looks_like_expression(r['pattern']) or r['pattern'].startswith('#')]
     if excluded:
         stats.excluded['csv_pattern_looks_like_expression(D-csv-heuristic)'] += len(excluded)
         rules = [r for r in rules if r not in excluded]
